@@ -658,6 +658,40 @@ def analyze(ctx, want):
         ws = field_writers(F, "FindMatchesImpl", fld)
         for w in sorted(ws):
             ok = any(re.search(rx, w) for rx in allowed)
+            if not ok and allowed:
+                # a mutable borrow that is only handed to an allowed writer (`Self::merge_line_offsets(&mut self.line_offsets, ..)`
+                # when the writer takes the field instead of `self`) is that writer's write
+                wf = [f_ for f_ in F.fns.values() if f_.name == w]
+                def only_passed_on(f_, site):
+                    bb_, i_, how_ = site[0], site[1], site[2] if len(site) > 2 else ""
+                    if how_ != "borrow_mut" or i_ is None:
+                        return False
+                    st_ = f_.blocks[bb_]["stmts"][i_]
+                    if st_["p"]["pj"]:
+                        return False
+                    def flows(l_, seen_):
+                        if l_ in seen_:
+                            return True
+                        seen_ = seen_ | {l_}
+                        used = False
+                        for b2 in f_.reachable():
+                            for s2 in f_.blocks[b2]["stmts"]:
+                                if s2["k"] == "assign" and s2["p"]["l"] != l_ and any(pl_["l"] == l_ for pl_ in M.rvalue_places(s2["rv"])):
+                                    # a reborrow / move of the reference into another temporary is followed
+                                    if s2["rv"]["k"] in ("ref", "use") and not s2["p"]["pj"]:
+                                        used = True
+                                        if not flows(s2["p"]["l"], seen_):
+                                            return False
+                                    else:
+                                        return False
+                            t2 = f_.term(b2)
+                            if t2["k"] == "call" and any((M.operand_place(a_) or {}).get("l") == l_ for a_ in t2["args"]):
+                                used = True
+                                if not any(re.search(rx, M.call_name(t2)) for rx in allowed):
+                                    return False
+                        return used
+                    return flows(st_["p"]["l"], frozenset())
+                ok = len(wf) == 1 and all(only_passed_on(wf[0], site) for site in ws[w])
             rule = "C09.b" if fld == "line_offsets" else ("C07.c" if fld == "char_indices" else "C10.b")
             ob(rule, "writer-of-%s:%s" % (fld, M.short_name(w)), ok, "%s writes/mutably borrows FindMatchesImpl.%s%s" % (M.short_name(w), fld, "" if ok else " (not in the closed writer set)"), "")
     # with_offset forwards to set_offset
